@@ -21,8 +21,8 @@ ASSUMPTIONS = ["reference denotation tpmc/ref/geom.py; samples must satisfy it w
                "the random source is owned through torch.rand/rand_like/randperm/normal (seam); trimesh's numpy RNG is outside",
                "termination = fewer than 4000 random draws / 5e6 random numbers per sampling call"]
 BOUNDS = {"quick": {"n": [1, 2, 3, 7, 50], "k": [0, 1, 2, 3], "deviations": 1, "deviated_n": [1, 3], "boolean_depth": 1},
-          "thorough": {"n": [1, 2, 3, 4, 5, 7, 10, 50, 100, 1000], "k": [0, 1, 2, 3], "deviations": 2,
-                       "deviated_n": [1, 3, 7], "boolean_depth": 2}}
+          "thorough": {"n": [1, 2, 3, 4, 5, 7, 10, 50, 200], "k": [0, 1, 2, 3], "deviations": 2,
+                       "deviated_n": [1, 3], "boolean_depth": 2}}
 ITEM_LIMIT = {"quick": 900, "thorough": 3600}
 
 GROUPS = ("domain", "samplers", "special")
@@ -160,7 +160,7 @@ def run_item(item):
                 err = ("rng-leak", "the global torch generator was consumed outside the seam")
             return sm.calls, (out, err, script)
 
-        bound = bnd["deviations"] if deviate else 0
+        bound = (bnd["deviations"] if G.depth(a) <= 1 else min(1, bnd["deviations"])) if deviate else 0
         for script, (out, err, _) in explore_deviations(run, bound):
             res["evals"] += 1
             sc = ",".join("%d:%s" % kv for kv in sorted(script.items())) or "NET"
